@@ -3,7 +3,7 @@
 BASIC = ["bool", "int", "int8", "int16", "int32", "int64", "uint", "uint8", "uint16", "uint32", "uint64", "uintptr",
          "float32", "float64", "string", "any"]
 BANK_PLAIN = ["Inner", "Deep", "EmbedVal", "EmbedPtr", "Shadow", "EmbedUnexported", "Named", "Twice", "DescTag", "MyString", "MyInt",
-              "MyFloat", "MyInts", "time.Time", "slog.Level", "MyInt8", "MyUint16", "MyUint", "MyInt64", "MyBool", "Levels", "Empty", "Markers", "IDt", "BaseT", "DocT", "DocP", "PtrInt", "PtrInner", "HoldsPtrs"]
+              "MyFloat", "MyInts", "time.Time", "slog.Level", "MyInt8", "MyUint16", "MyUint", "MyInt64", "MyBool", "Levels", "Empty", "Markers", "IDt", "BaseT", "DocT", "DocP", "TwoEmb", "PtrInt", "PtrInner", "HoldsPtrs"]
 BANK_KNOWN = {"ShadowByTag": "D14", "Ambiguous": "D14", "EmbedTagged": "D16", "EmbedNonStruct": "D16", "BadTag": "D15",
               "WithMarshalers": "D13", "big.Int": "D13"}
 BANK_REC = ["Rec", "RecA", "PtrSelf", "PtrA"]
@@ -63,7 +63,7 @@ def gen_type(rng, depth, used, allow_known=0.04, allow_rec=0.0, allow_bad=0.0):
     if r < 0.6:
         return {"k": "slice", "e": gen_type(rng, depth - 1, used, allow_known, allow_rec, allow_bad)}
     if r < 0.68:
-        return {"k": "array", "n": rng.randint(1, 3), "e": gen_type(rng, depth - 1, used, allow_known, allow_rec, allow_bad)}
+        return {"k": "array", "n": rng.choice([0, 1, 1, 2, 3]), "e": gen_type(rng, depth - 1, used, allow_known, allow_rec, allow_bad)}
     if r < 0.78:
         key = "string" if rng.random() > allow_bad else "int"
         if key == "int":
